@@ -1489,6 +1489,10 @@ class Evaluator:
                     if its:
                         return its[0]
                     return args[1] if len(args) == 2 else Raised('StopIteration')
+            if name == 'zip' and args and not kwargs:
+                seqs = [self.items(st, a_) if not isinstance(a_, Cond) else None for a_ in args]
+                if all(s_ is not None for s_ in seqs):
+                    return Tup([Tup(list(t_)) for t_ in zip(*seqs)])
             if name == 'enumerate' and len(args) == 1 and not kwargs:
                 its = self.items(st, args[0]) if not isinstance(args[0], Cond) else None
                 if its is not None:
